@@ -469,6 +469,8 @@ def impl(c):
     generic = c["world"] == "generic"
     reported = set()         # real hashes reported by any collect so far (C14)
     quiet = {}               # root handle -> "collect"/"reset" while no mutation happened since
+    owed = set()             # id() of the nodes below some reset_collect() that no collection has visited since (C14:
+                             # "after a collection reset every node is reported again", whichever node is reset or collected)
     for idx, op in enumerate(c["ops"]):
         t = op[0]
         try:
@@ -526,6 +528,12 @@ def impl(c):
                         bad.append("op %d %s: node %d is in the tree but no collection reported its current hash"
                                    % (idx, op, handle[id(r)]))
                         break
+                below = reach_impl(nd)
+                miss = [r for r in below if id(r) in owed and scratch_m(r) not in hs]
+                if miss:
+                    bad.append("op %d %s: node %d was reset by reset_collect() and is below the collected node, but this "
+                               "collection did not report it again" % (idx, op, handle[id(miss[0])]))
+                owed -= {id(r) for r in below}
                 if quiet.get(op[1]) == "collect" and got:
                     bad.append("op %d %s: collecting again without an intervening change reported %d nodes" % (idx, op, len(got)))
                 if quiet.get(op[1]) == "reset":
@@ -536,6 +544,7 @@ def impl(c):
                 tok = "n" + ",".join(sorted(hexs(h) for h in hs))
             elif t == "R":
                 nodes[op[1]].reset_collect()
+                owed |= {id(r) for r in reach_impl(nodes[op[1]])}
                 quiet = {op[1]: "reset"}
                 tok = "u"
             else:
